@@ -10,23 +10,6 @@ open LFormat
 
 /-! ### well-formedness of the items (grammar side) -/
 
-/-- a punctuation mark: one punctuation / symbol character that cannot continue a name or be taken for `=` -/
-def gPunctB (p : Str) : Bool :=
-  match p with
-  | [c] => psB c && !acB c && !(c == '=')
-  | _ => false
-
-def stampMidOf (st : Str) : Str := (st.drop 1).dropLast
-
-/-- a stamp: absent, or `:` … `:` around a non-empty text without `:`, blanks or `$` -/
-def gStampB (st : Str) : Bool :=
-  st.isEmpty || (st == stampTxt (stampMidOf st) && !(stampMidOf st).isEmpty && (stampMidOf st).all stampCh)
-
-def gSentOKB (s : LSentence) : Bool :=
-  gTermOKB s.term && gPunctB s.punct && gStampB s.stamp && s.truth.all gNumB
-
-def gTaskOKB (k : LTask) : Bool := k.budget.all gNumB && gSentOKB k.sentence
-
 /-- blank-separated optional item -/
 def optSp (x : Str) : Str := if x.isEmpty then [] else ' ' :: x
 
@@ -352,13 +335,6 @@ theorem task_fail_dollar (w : Str) (hw : '$' ∉ w) : Ev RG false (.ref "task") 
   have hbud : Ev RG false budgetBody ('$' :: w) none := ev_seq_no h12 hsk2 hf
   exact ev_ref_no rule_task (Ev.seq_fail _ _ _ _ (ev_ref_no rule_budget hbud))
 
-/-- the text of a value that is not a task is not taken for one: it does not begin with `$`, or no second `$`
-follows -/
-def dollarOKB (txt : Str) : Bool :=
-  match txt with
-  | c :: w => !(c == '$') || !w.contains '$'
-  | [] => true
-
 theorem task_fail (txt : Str) (h : dollarOKB txt = true) : Ev RG false (.ref "task") txt none := by
   cases txt with
   | nil => exact task_fail_head [] (by simp)
@@ -377,11 +353,6 @@ def narseseBody : Peg := .alt (.alt (.ref "task") (.ref "sentence")) (.ref "term
 
 theorem rule_narsese : RG.rule? "narsese" = some { name := "narsese", mod := .normal, body := narseseBody } := by
   decide +kernel
-
-def gValOKB (L : LFormat) : LNarsese → Bool
-  | .term t => gTermOKB t && dollarOKB (L.fmtTerm t)
-  | .sentence s => gSentOKB s && dollarOKB (L.fmtSentence s)
-  | .task k => gTaskOKB k
 
 def valTree (L : LFormat) : LNarsese → PTree
   | .term t => .node "narsese" (L.fmtTerm t) [termTree L t]
